@@ -86,7 +86,10 @@ class FluxWorld:
     def __init__(self):
         self.reset()
 
-    def reset(self, fail=(), pool=None):
+    def reset(self, fail=(), pool=None, unknown=(), dead=None, order=None):
+        self.unknown = set(unknown)    # integer ids the broker does not know (job-list RPC error per id)
+        self.dead = dead               # an exception instance: the job-list RPC itself fails
+        self.order = list(order) if order else None   # integer ids in the order the broker answers
         self.fail = set(fail)          # integer ids whose cancel raises
         self.cancels = []              # integer ids flux.job.cancel was called with
         self.lists = 0                 # JobList fetches
@@ -126,10 +129,17 @@ class JobID(int):
     __repr__ = __str__
 
 
+ABBREV = {"D": ("DEPEND", None), "P": ("PRIORITY", None), "S": ("SCHED", None), "R": ("RUN", None),
+          "C": ("CLEANUP", None), "CD": ("INACTIVE", "COMPLETED"), "F": ("INACTIVE", "FAILED"),
+          "CA": ("INACTIVE", "CANCELED"), "TO": ("INACTIVE", "TIMEOUT")}
+
+
 class JobInfo:
     def __init__(self, jid):
         self.id = JobID(jid)
         self.status_abbrev = WORLD.state.get(int(jid), "R")
+        self.state, self.result = ABBREV.get(self.status_abbrev, (self.status_abbrev, None))
+        self.status = self.result or self.state
 
     def __repr__(self):
         return "JobInfo(%s)" % self.id
@@ -144,12 +154,19 @@ class JobList:
         self.errors = []
 
     def fetch_jobs(self):
-        WORLD.lists += 1
         return self
 
     def jobs(self):
+        # as in flux-core: `errors` is empty until the fetch has run, then holds one text per unknown id
         WORLD.lists += 1
-        return [JobInfo(i) for i in self.ids]
+        if WORLD.dead is not None:
+            raise WORLD.dead
+        self.errors = ["JobID %s unknown" % i.f58 for i in self.ids if int(i) in WORLD.unknown]
+        known = [i for i in self.ids if int(i) not in WORLD.unknown]
+        if WORLD.order:
+            pos = {n: k for k, n in enumerate(WORLD.order)}
+            known.sort(key=lambda i: pos.get(int(i), len(pos)))
+        return [JobInfo(i) for i in known]
 
     def jobids(self):
         return list(self.ids)
